@@ -151,7 +151,8 @@ func runC03W(c *Ctx) {
 	}
 }
 
-// C03.W2: in a `switch X.id` of a parser method, two clauses with different constant labels assign the same selector.
+// C03.W2: in a `switch X.id` of a parser method, two clauses with different constant labels assign the same selector or
+// the same local variable.
 func runC03W2(c *Ctx) {
 	p := c.P
 	info := p.info()
@@ -191,8 +192,18 @@ func runC03W2(c *Ctx) {
 					if !ok || len(as.Lhs) != 1 || len(as.Rhs) != 1 {
 						continue
 					}
-					lhs, ok := as.Lhs[0].(*ast.SelectorExpr)
-					if !ok {
+					// the target: a field of the node (X.f) or a local variable that keeps the value until the node is built
+					var key, what string
+					switch lhs := as.Lhs[0].(type) {
+					case *ast.SelectorExpr:
+						key, what = exprStr(lhs), exprStr(lhs)
+					case *ast.Ident:
+						obj := info.ObjectOf(lhs)
+						if obj == nil || lhs.Name == "_" {
+							continue
+						}
+						key, what = fmt.Sprintf("%s@%d", lhs.Name, obj.Pos()), "the local variable "+lhs.Name
+					default:
 						continue
 					}
 					call, ok := as.Rhs[0].(*ast.CallExpr)
@@ -203,17 +214,19 @@ func runC03W2(c *Ctx) {
 					if fn == nil || !strings.HasPrefix(fn.Name(), "parse") {
 						continue
 					}
-					key := exprStr(lhs)
 					if prev, ok := assigned[key]; ok && prev != label {
-						dup = fmt.Sprintf("%s is assigned from a parse call in case %q and again in case %q: one of the keys is stored in the wrong field", key, prev, label)
+						dup = fmt.Sprintf("%s is assigned from a parse call in case %q and again in case %q: one of the keys is stored in the wrong field", what, prev, label)
 					}
 					assigned[key] = label
 				}
 			}
-			if dup != "" {
+			switch {
+			case dup != "":
 				c.bad(construct, sw.Pos(), dup)
-			} else {
-				c.ok(construct, sw.Pos(), fmt.Sprintf("%d distinct fields assigned, each by one key", len(assigned)))
+			case len(assigned) == 0:
+				// no clause assigns the result of a parse call to a field or a local: nothing was inspected, nothing is claimed
+			default:
+				c.ok(construct, sw.Pos(), fmt.Sprintf("%d distinct fields or locals assigned, each by one key", len(assigned)))
 			}
 			return true
 		})
